@@ -199,6 +199,8 @@ def run_c17(res, tier, seed):
             run_e2e_manifest(res, f"{base}/manifest{k}", random.Random(seed * 1000 + 500 + k), "C17")
         for k in range(2 if tier == "quick" else 12):
             run_e2e_chain(res, f"{base}/chain{k}", random.Random(seed * 1000 + 800 + k))
+        for k in range(2 if tier == "quick" else 12):
+            run_e2e_same_name(res, f"{base}/same{k}", random.Random(seed * 1000 + 900 + k), "C17")
     finally:
         shutil.rmtree(base, ignore_errors=True)
     res.cov["rule"] = (f"{n_trees} generated project trees on disk (application + 0-3 registry (build/packages) and path dependencies, nested "
@@ -213,10 +215,25 @@ def run_imports(res, tier, seed):
     """M-imports vs `Package::visible_modules`: multi-package workspaces in the analysis database (package graph with
     direct-dependency lists, one source root per package, module names shared between packages), every module of every
     package imports every module name of the pool and calls its `f`; go-to-definition tells which file the import reached"""
-    from p_ide import run_workspaces, parse_target, FilesOnly
+    from p_ide import run_workspaces, parse_target
     rng = random.Random(seed * 7 + 17)
-    pool = ["util", "a", "a/b", "x/y/z", "core"]
     n_ws = 60 if tier == "quick" else 1200
+    batches, metas = gen_import_workspaces(rng, n_ws)
+    answers = run_workspaces(batches)
+    graph_specs, mreqs = [], []
+    for (pkgs, meta, files) in metas:
+        spec = ";".join("+".join(str(d) for d in deps) + "|" + ",".join(f"{m}={fi}" for (m, fi) in entries) for (n, deps, entries, toml) in pkgs)
+        for (k, q, fi) in meta:
+            mreqs.append(f"imports\t{spec}\t{k}\t{q}")
+    return finish_imports(res, metas, answers, mreqs)
+
+
+IMPORT_POOL = ["util", "a", "a/b", "x/y/z", "core"]
+
+
+def gen_import_workspaces(rng, n_ws):
+    from p_ide import FilesOnly
+    pool = IMPORT_POOL
     batches, metas = [], []
     for _ in range(n_ws):
         npk = rng.randrange(2, 6)
@@ -252,12 +269,11 @@ def run_imports(res, tier, seed):
                     qs.append(f"goto\t{fi}\t{off}")
                     meta.append((k, q, fi))
         batches.append((ws, qs)); metas.append((pkgs, meta, files))
-    answers = run_workspaces(batches)
-    graph_specs, mreqs = [], []
-    for (pkgs, meta, files) in metas:
-        spec = ";".join("+".join(str(d) for d in deps) + "|" + ",".join(f"{m}={fi}" for (m, fi) in entries) for (n, deps, entries, toml) in pkgs)
-        for (k, q, fi) in meta:
-            mreqs.append(f"imports\t{spec}\t{k}\t{q}")
+    return batches, metas
+
+
+def finish_imports(res, metas, answers, mreqs):
+    from p_ide import parse_target
     mo, rc = common.run_lines(common.DRIVER_BIN, mreqs)
     if len(mo) != len(mreqs):
         raise Broken("Lean driver died", "during imports commands")
@@ -343,6 +359,53 @@ def run_e2e_manifest(res, tb, rng, prop):
                     c.notify("textDocument/didClose", {"textDocument": {"uri": toml_uri}})
                 history.append(f"gleam.toml {label} ({how})")
                 if not ask(f"gleam.toml {label}, re-read ({how})"):
+                    return
+    finally:
+        c.close()
+
+
+def run_e2e_same_name(res, tb, rng, prop):
+    """two packages of the same NAME in one session — a local checkout and the copy an application has under its
+    build/packages — opened in either order: the copy under build/packages stays external, the checkout stays editable"""
+    def w(path, text):
+        os.makedirs(os.path.dirname(path), exist_ok=True)
+        open(path, "w").write(text)
+    name = rng.choice(["mylib", "gleam_stdlib", "shared"])
+    src = "pub fn greet() {\n  1\n}\n\npub fn twice() {\n  greet() + greet()\n}\n"
+    w(f"{tb}/{name}/gleam.toml", f'name = "{name}"\nversion = "2.0.0"\n')
+    w(f"{tb}/{name}/src/{name}.gleam", src)
+    w(f"{tb}/app/gleam.toml", f'name = "app"\n[dependencies]\n{name} = "1.0"\n')
+    w(f"{tb}/app/src/app.gleam", f"import {name}\n\npub fn main() {{\n  {name}.greet()\n}}\n")
+    w(f"{tb}/app/build/packages/{name}/gleam.toml", f'name = "{name}"\nversion = "1.0.0"\n')
+    w(f"{tb}/app/build/packages/{name}/src/{name}.gleam", src)
+    local_u = "file://" + f"{tb}/{name}/src/{name}.gleam"
+    app_u = "file://" + f"{tb}/app/src/app.gleam"
+    dep_u = "file://" + f"{tb}/app/build/packages/{name}/src/{name}.gleam"
+    texts = {local_u: src, dep_u: src, app_u: open(f"{tb}/app/src/app.gleam").read()}
+    order = [local_u, app_u, dep_u] if rng.random() < 0.6 else rng.sample([local_u, app_u, dep_u], 3)
+    key_ext = "C17/dependency-editable-with-same-named-local-package" if prop == "C17" else "C08/external-symbol-renameable-with-same-named-local-package"
+    key_loc = "C17/local-package-not-renameable" if prop == "C17" else "C08/local-symbol-refused-with-same-named-dependency"
+    c = lsp.Lsp(tb)
+    try:
+        if c.initialize() is None:
+            return
+        for u in order:
+            c.notify("textDocument/didOpen", {"textDocument": {"uri": u, "languageId": "gleam", "version": 1, "text": texts[u]}})
+        pos = {"line": 0, "character": 8}
+        for (u, external) in ((dep_u, True), (local_u, False)):
+            for method, params in (("textDocument/prepareRename", {"textDocument": {"uri": u}, "position": pos}),
+                                   ("textDocument/rename", {"textDocument": {"uri": u}, "position": pos, "newName": "salute"})):
+                r = c.request(method, params, timeout=30)
+                res.cov["evaluations"] += 1
+                accepted = r is not None and bool(r.get("result"))
+                edits = sum(len(v) for v in (((r or {}).get("result") or {}).get("changes") or {}).values()) if method.endswith("/rename") and accepted else None
+                if external and accepted:
+                    res.add_violation(key_ext, f"{method.split('/')[1]} of `greet` in app/build/packages/{name} is accepted (documents opened in the order {[x.replace('file://' + tb, '') for x in order]})",
+                                      {"tree": tb, "order": [x.replace("file://" + tb, "") for x in order], "package": name, "request": method, "answer": r})
+                    return
+                if not external and (not accepted or edits == 0):
+                    res.add_violation(key_loc, f"{method.split('/')[1]} of `greet` in the local checkout {name}/ is {'refused' if not accepted else 'accepted without edits'} (order {[x.replace('file://' + tb, '') for x in order]})",
+                                      {"tree": tb, "order": [x.replace("file://" + tb, "") for x in order], "package": name, "request": method, "answer": r})
                     return
     finally:
         c.close()
